@@ -13,7 +13,7 @@ EXTENDS AddrText, TLC, Json
 Trace == ndJsonDeserialize("trace.ndjson")
 VARIABLE l
 
-Rep(tag, cond) == cond \/ PrintT(<<"MISMATCH", l, tag>>)
+Rep(tag, cond) == IF cond THEN TRUE ELSE PrintT(<<"MISMATCH", l, tag>>)
 SameAddr(x, y) == /\ x.system = y.system /\ x.host = y.host /\ x.port = y.port
                   /\ x.name = y.name /\ x.parent = y.parent
 
